@@ -1178,15 +1178,9 @@ verdict_t check_acase(const acase_t& c, ctx_t& ctx)
         ctx.maximum("infeasibility / epsilon", infeas / c.epsilon);
         if (infeas > c.epsilon + round)
         {
-            if (infeas > 10.0 * c.epsilon + round)
-            {
-                merge(verdict_t::violation(std::string("C05/solver/converged-but-infeasible/") + (eq ? "equality" : "inequality"),
-                                           cat(c05::kind_name(cd.kind), ": ", eq ? "|h|" : "max(0,g)", " = ", infeas, " > epsilon = ", c.epsilon)));
-            }
-            else
-            {
-                merge(verdict_t::borderline("C05/solver/feasibility"));
-            }
+            // epsilon is the property's own bound: only the rounding of the recomputation is added
+            merge(verdict_t::violation(std::string("C05/solver/converged-but-infeasible/") + (eq ? "equality" : "inequality"),
+                                       cat(c05::kind_name(cd.kind), ": ", eq ? "|h|" : "max(0,g)", " = ", infeas, " > epsilon = ", c.epsilon)));
         }
         const double d = std::fabs(stored - e.v);
         if (!(d <= round))
